@@ -121,6 +121,7 @@ pub(crate) struct PositionCalculator<'a> {
     pos: usize,
     line: usize,
     column: usize,
+    prev_cr: bool,
 }
 
 impl<'a> PositionCalculator<'a> {
@@ -130,6 +131,7 @@ impl<'a> PositionCalculator<'a> {
             pos: 0,
             line: 1,
             column: 1,
+            prev_cr: false,
         }
     }
 
@@ -139,18 +141,23 @@ impl<'a> PositionCalculator<'a> {
         let bytes_to_read = pos - self.pos;
         let chars_to_read = self.input[..bytes_to_read].chars();
         for ch in chars_to_read {
+            // `\n`, `\r\n` and a lone `\r` each end a line.
             match ch {
                 '\r' => {
+                    self.line += 1;
                     self.column = 1;
                 }
                 '\n' => {
-                    self.line += 1;
-                    self.column = 1;
+                    if !self.prev_cr {
+                        self.line += 1;
+                        self.column = 1;
+                    }
                 }
                 _ => {
                     self.column += 1;
                 }
             }
+            self.prev_cr = ch == '\r';
         }
         self.pos = pos;
         self.input = &self.input[bytes_to_read..];
